@@ -41,6 +41,7 @@ type ClientCfg struct {
 	Header    http.Header
 	Host      string
 	URL       string
+	Timeout   time.Duration // http.Client.Timeout (0 = none)
 }
 
 // Client is a dialled library connection and the harness's end of its transport.
@@ -83,7 +84,7 @@ func Dial(ctx context.Context, cfg ClientCfg) (*Client, error) {
 		u = "ws://verif.test/ws"
 	}
 	c, resp, err := websocket.Dial(ctx, u, &websocket.DialOptions{
-		HTTPClient:           &http.Client{Transport: rt},
+		HTTPClient:           &http.Client{Transport: rt, Timeout: cfg.Timeout},
 		HTTPHeader:           cfg.Header,
 		Host:                 cfg.Host,
 		Subprotocols:         cfg.Protos,
